@@ -736,6 +736,20 @@ FIXED.append(
 )
 
 
+FIXED.append(
+    {  # a refinement stacked on an already refined alias: Annotated[Annotated[int, IntRange(0, 100)], IntList([5, 7])]
+        "name": "fx_stacked",
+        "abstracts": [{"name": "Root", "parent": None, "style": "abc"}],
+        "prods": [
+            {"name": "Leaf", "parent": "Root", "fields": []},
+            {"name": "Pct", "parent": "Root", "fields": [["v", ["ann", ["ann", ["int"], ["IntRange", 0, 100]], ["IntList", [5, 7]]]]]},
+            {"name": "Two", "parent": "Root", "fields": [["l", ["ref", "Root"]], ["r", ["ref", "Root"]]]},
+        ],
+        "start": "Root",
+    }
+)
+
+
 def family(seed: int, n: int, profile="general", with_fixed=True):
     """Yields n descriptors (fixed members first)."""
     out = []
